@@ -1374,6 +1374,9 @@ class SVG:
         for context in reversed(list(self.depth_first())):
             if _is_group(context.element):
                 _try_remove_group(context.element)
+        # opacities pushed down from flattened groups need rounding (and the canonical
+        # attribute order of a flushed shape) too
+        self.round_floats(ndigits, inplace=True)
 
         violations = self.checkpicosvg(
             allow_text=allow_text, drop_unsupported=drop_unsupported
